@@ -102,6 +102,7 @@ def parseInstr (a : Arch) (s : String) : Option Instr :=
       | "mov", [.mem b off .fixed, .reg 0 r sz] => if sz = W then some (.stGp b off r) else none
       | "mov", [.reg 0 d sz, .mem b off .fixed] => if sz = W then some (.ldGp d b off) else none
       | "and", [.reg 0 r sz, .imm v] => if sz = W then some (.andImm r v) else none
+      | "and", [.reg 0 d sz, .reg 0 r sz', .imm v] => if sz = W ∧ sz' = W ∧ a.isA64 then some (.and3 d r v) else none
       | "sub", [.reg 0 r sz, .imm v] => if sz = W ∧ !a.isA64 then some (.sub r v) else none
       | "add", [.reg 0 r sz, .imm v] => if sz = W ∧ !a.isA64 then some (.add r v) else none
       | "sub", [.reg 0 d sz, .reg 0 r _, .imm v] => if sz = W ∧ d = r ∧ a.isA64 then some (.sub r v) else none
